@@ -34,3 +34,8 @@ Check (TyTernary : forall E G c a b da db t d, Typed E G c (DConcrete T_BOOL) ->
 Check (TyBinary : forall E G op b l r dl dr t d, bop_of op = Some b -> binop_class b <> KLogical -> Typed E G l dl -> Typed E G r dr ->
     spec_binary E (opclass_of b) dl dr = Some t -> concrete d = Some t -> Typed E G (EBinary op l r) d).
 Check (TyUnary : forall E G op u a da t d, uop_of op = Some u -> Typed E G a da -> spec_unary (uclass_of u) da = Some t -> concrete d = Some t -> Typed E G (EUnary op a) d).
+Check (C05_subscript : forall obj ix s, succeeds (check_object_subscript_type obj ix) s = spec_subscript (operand_tdesc obj) (operand_tdesc ix)).
+Check (C05_subscript_is_the_check).
+Check (eq_refl : spec_subscript (DConcrete (TList T_INT)) (DConcrete T_DOUBLE) = None).
+Check (eq_refl : spec_subscript (DConcrete (TList T_INT)) DConstInteger = Some T_INT).
+Check (eq_refl : spec_subscript (DConcrete T_STRING) DConstInteger = None).
